@@ -26,6 +26,12 @@ def workloads():
     w["W4_eval_nested_changed"] = dict(setup=[B("eval", "fsm_a1", "root")], crash=B("eval", "fsm_a2", "root"),
                                        paths={"/a/x": ("fsm_a2", "f"), "/a/b/y": ("fsm_a2", "g")},
                                        old={"/a/x": ("fsm_a1", "f"), "/a/b/y": ("fsm_a1", "g")})
+    # the pipeline with nested keeps is itself kept at the top level (its own link is one of several the commit replaces one by one)
+    w["W8_keep_nested_fresh"] = dict(setup=[], crash=B("keep", "fsm_a1", "root", "/top"),
+                                     paths={"/top": ("fsm_a1", "root"), "/a/x": ("fsm_a1", "f"), "/a/b/y": ("fsm_a1", "g")})
+    w["W8_keep_nested_changed"] = dict(setup=[B("keep", "fsm_a1", "root", "/top")], crash=B("keep", "fsm_a2", "root", "/top"),
+                                       paths={"/top": ("fsm_a2", "root"), "/a/x": ("fsm_a2", "f"), "/a/b/y": ("fsm_a2", "g")},
+                                       old={"/top": ("fsm_a1", "root"), "/a/x": ("fsm_a1", "f"), "/a/b/y": ("fsm_a1", "g")})
     # the code is edited after the crash: the recovery evaluates another version than the one that was killed
     w["W7_first_keep_then_edit"] = dict(setup=[], crash=B("keep", "fsm_a1", "f", "/a/x"), recover_as=B("keep", "fsm_a2", "f", "/a/x"),
                                         paths={"/a/x": ("fsm_a2", "f")})
